@@ -201,13 +201,18 @@ def gen_bound(rng, n, cps=(), none_ok=True):
 
 
 def gen_range(rng, n, cps=()):
-    a = gen_bound(rng, n, cps)
-    b = gen_bound(rng, n, cps)
-    if a is not None and b is not None and rng.random() < 0.6:
-        aa = a if a >= 0 else a + n
-        bb = b if b >= 0 else b + n
-        if aa > bb:
-            a, b = b, a
+    """(start, end) with Python slice semantics; ~80% of the ranges are non-empty after normalisation"""
+    for attempt in range(3):
+        a = gen_bound(rng, n, cps)
+        b = gen_bound(rng, n, cps)
+        if a is not None and b is not None and rng.random() < 0.8:
+            aa = a if a >= 0 else a + n
+            bb = b if b >= 0 else b + n
+            if aa > bb:
+                a, b = b, a
+        lo, hi, _ = slice(a, b).indices(n)
+        if hi > lo or rng.random() < 0.2:
+            break
     return a, b
 
 
